@@ -137,10 +137,15 @@ def slice(ctx: fw.Ctx) -> fw.Outcome:
     out = fw.Outcome(RULE)
     direct(ctx, out)
     charts(ctx, out)
+    from .. import direct as _direct
+    _direct.run(ctx, out, 'instrument', ic.prof(flags=0.5, garbage=0.0, exotic_pad=0.25))  # the section's own public parser, given the lines between the braces (padding and all), builds the same track
     return out
 
 
 def replay(ctx, data):
+    if data.get("op") == "direct-section":
+        from .. import direct as _direct
+        return _direct.replay(data)
     if data["op"] == "hopo":
         from types import SimpleNamespace
 
